@@ -439,12 +439,20 @@ def install(w):
 
         fails = ex.fresh("parse_fails", B)
         ex.raise_if(st, fails, sqlglot.errors.ParseError, node)
-        obj = ex.new_object(st, None, E)
+        text = args[0] if args else None
+        describe = bool(text is not None and text.parts and isinstance(text.parts[0], str) and text.parts[0].upper().startswith("DESCRIBE "))
+        obj = ex.new_object(st, exp.Describe if describe else None, exp.Describe if describe else E)
         nid = V.rid(obj.t)
         st.assume(w.classes.isa(CLS(nid), E))
         d = ex.new_object(st, dict, DictT(str, None))
+        did = V.rid(d.t)
         st.heap["args"] = z3.Store(st.arr("args"), nid, d.t)
         st.heap["parent"] = z3.Store(st.arr("parent"), nid, NONE)
+        # a freshly parsed tree carries none of fakesnow's own bookkeeping arguments (they are attached by its transforms);
+        # `DESCRIBE <statement>` has no kind (A-SQLGLOT 1)
+        has = st.arr("$dhas")[did]
+        for k_ in ("set_database", "set_schema", "create_db_name", "table_comment", "text_lengths", "seed", "col_comments") + (("kind",) if describe else ()):
+            st.assume(z3.Not(has[mks(k_)]))
         ex.bump_alloc(st)
         return obj
 
